@@ -98,10 +98,14 @@ class Parser:
         context._titles = excel.get_titles()
         context._sheets_size = excel.get_sheets_size()
 
-        if self._entrypoint_cell:
-            CellTranslator.translate(self._entrypoint_cell, excel, context)
-        else:
-            CellTranslator.translate_file(excel, context)
+        try:
+            if self._entrypoint_cell:
+                CellTranslator.translate(self._entrypoint_cell, excel, context)
+            else:
+                CellTranslator.translate_file(excel, context)
+        except RecursionError:
+            # cells are translated depth first: a long chain of cells that depend on each other exhausts the interpreter's stack
+            raise E2PyclParserException('The chain of dependent cells is too long to be translated')
 
         self._translation = context.build_class()
 
